@@ -25,6 +25,8 @@
 
 mod behaviour;
 mod copy_future;
+#[cfg(libp2p_verif)]
+pub use copy_future::verif_copy;
 mod multiaddr_ext;
 mod priv_client;
 mod protocol;
